@@ -166,3 +166,8 @@ pub fn identity_internal() -> Identity {
 // be — index key types (IdxMeta::new and Backend::new are public but name these)
 
 pub use crate::be::idxkey::{IdxKey, IdxSlope};
+
+// ---------------------------------------------------------------------------------------------
+// be — the on-disk entry encoding (Entry::to_dbentry / from_dbentry are public but name it)
+
+pub use crate::be::dbentry::DbEntry;
